@@ -155,6 +155,25 @@ def example_programs(tier):
             p = relabel(Program("exp", If(((Cmp(Id("fld"), op, tp), R1()),), R1()), None, ("uid",)))
             items.append(("tuple", p, "real", {"fld": "num"}))
             items.append(("tuple", p, "real", {"fld": "str"}))
+    # tuple literals used as VALUES (operands of == / != / < and nested members), with repeated members: a tuple-typed
+    # field of the same and of a smaller length must be told apart
+    valued = [Tup((Lit(1), Lit(1))), Tup((Lit(-1), Lit(-1), Lit(0))), Tup((Lit("a"), Lit("a"))), Tup((Lit(2), Lit(3), Lit(2))),
+              Tup((Lit(1.5, text="1.5"), Lit(1.5, text="1.5")))]
+    for tp in valued:
+        es = "str" if isinstance(tp.items[0].value, str) else "num"
+        for op in ("==", "!=", "<", ">="):
+            if es == "str" and op in ("<", ">="):
+                continue
+            p = relabel(Program("exp", If(((Cmp(Id("t"), op, tp), R1()),), R1()), None, ("uid",)))
+            for n in sorted({len(tp.items), len(tp.items) - 1, 1}):
+                if n >= 1:
+                    items.append(("tuple-value", p, "real", {"t": ("tuple", es, n)}))
+        nested = Tup((tp, Tup((Lit(2), Lit(3)))))
+        for op in ("in", "not in"):
+            p = relabel(Program("exp", If(((Cmp(Id("t"), op, nested), R1()),), R1()), None, ("uid",)))
+            for n in sorted({len(tp.items), len(tp.items) - 1}):
+                if n >= 1:
+                    items.append(("tuple-value", p, "real", {"t": ("tuple", es, n)}))
     # a tuple literal compared against a nested tuple literal
     p = relabel(Program("exp", If(((Cmp(Tup((Lit(1), Lit(2))), "in", Tup((Tup((Lit(1), Lit(2))), Lit(3)))), R1()),), R1()), None, ("uid",)))
     items.append(("tuple", p, "real", None))
